@@ -5,14 +5,14 @@
 //!   E2E-term(text written by darklua_core::process, re-parsed)  REF-term(program whose behaviour OUT must have)
 //! A term column holds `ERR:<message>` when that stage failed.
 
-mod gen;
+
 
 use std::panic::{catch_unwind, AssertUnwindSafe};
 
 use darklua_core::nodes::Block;
 use darklua_core::rules::{ContextBuilder, Rule};
 use darklua_core::{Configuration, Options, Parser, Resources};
-use gen::{Features, Gen};
+use proggen::{Features, Gen};
 use hutil::{arg_u64, arg_value, hex, Rng};
 
 const DEFAULT_RULES: &[&str] = &[
